@@ -11,6 +11,7 @@
 import Proofs.Dispatch
 import Proofs.DispatchHttp
 import Proofs.DispatchBytes
+import Proofs.DispatchSoap
 import SpyneModel.Generated.Facts11
 namespace SpyneModel.Props.C11
 open SpyneModel SpyneModel.Dispatch SpyneModel.Dispatch.Sample SpyneModel.Generated
@@ -374,6 +375,64 @@ theorem url_path_unregistered_not_found (tns : Text) (ms : List Method) (r : Rou
   rw [this]
   exact (reached_iff_registered tns ms r hb _ n ((naming tns n).2.2.2.2 pre hn)).mpr hu
 
+/-! ### address-less HttpPatterns -/
+
+/-- an HttpPattern declared without an address answers to the method's PUBLIC name (the in-message name),
+    never to the python function or operation name -/
+theorem pattern_default_is_public_name (s : ServiceDecl) (d : MethodDecl) (m : Method)
+    (h : resolveMethod facts11 s d = .ok m) :
+    m.patterns = d.patterns.map (fun va => (va.1, va.2.getD m.name)) := by
+  unfold resolveMethod at h
+  cases hr : resolveIn facts11 d with
+  | error e => simp [hr] at h
+  | ok p =>
+    obtain ⟨inNs, name⟩ := p
+    simp only [hr] at h
+    cases h
+    exact fillPatterns_default facts11 (by decide) d name d.patterns
+
+/-- `url_path_unregistered_not_found` over pattern defaults: when every collected pattern carries a plain
+    address equal to '/' + a registered public name (which is what address-less patterns get), a GET for
+    '/n' with `n` unregistered - e.g. the python function name of a renamed method - reaches nothing -/
+theorem default_patterns_unregistered_not_found (tns : Text) (ms : List Method) (r : Routes)
+    (hb : build facts11 tns ms = .ok r) (n verb query : Text) (hn : '/' ∉ n)
+    (hu : ∀ m ∈ ms, m.name ≠ n)
+    (hd : ∀ p ∈ httpPatterns r, ∃ m ∈ ms, p.addr = '/' :: m.name ∧ ∀ c ∈ p.addr, isOpener c = false)
+    (hw : isWsdlRequest facts11 verb ('/' :: n) query = false) :
+    serveHttp facts11 r tns verb ('/' :: n) query = .notFound := by
+  apply url_path_unregistered_not_found tns ms r hb n verb [] query hn hu hw
+  intro p hp
+  obtain ⟨m, hm, ha, hc⟩ := hd p hp
+  cases hmt : p.matches verb ([] ++ '/' :: n) with
+  | false => rfl
+  | true =>
+    exfalso
+    have := matches_plain hc hmt
+    simp only [List.nil_append, withSlash] at this
+    rw [ha] at this
+    exact hu m hm (List.cons.inj this).2.symm
+
+/-! ### SOAP: what the header contains never selects the method -/
+
+/-- Soap11 and Soap12: the request is named by the first child of the Envelope's own Body child; the blocks
+    before it (a Header quoting or relaying whole messages with Body / Header / Envelope elements of their
+    own, any depth) and after it play no role -/
+theorem soap_header_never_selects (soapNs : Text) (pre post rest : List Xml) (m : Xml)
+    (hpre : ∀ x ∈ pre, x.isTag soapNs "Body".toList = false) (r : Routes) (tns : Text) :
+    soapMethod facts11 soapNs (.node (some soapNs) "Envelope".toList
+        (pre ++ .node (some soapNs) "Body".toList (m :: rest) :: post)) = some (m.ns, m.loc) ∧
+    serveSoap facts11 r tns soapNs (.node (some soapNs) "Envelope".toList
+        (pre ++ .node (some soapNs) "Body".toList (m :: rest) :: post)) = serve facts11 r tns (.tag m.ns m.loc) := by
+  have h := soapMethod_direct facts11 (by decide) soapNs pre post rest m (some soapNs) rfl hpre
+  exact ⟨h, serveSoap_of_method facts11 r tns soapNs _ _ _ h⟩
+
+/-- an envelope without a Body child of its own (or with an empty one) runs nothing, even if a Body sits
+    somewhere inside the Header -/
+theorem soap_no_direct_body (soapNs : Text) (cs : List Xml) (r : Routes) (tns : Text)
+    (h : ∀ x ∈ cs, x.isTag soapNs "Body".toList = false) :
+    serveSoap facts11 r tns soapNs (.node (some soapNs) "Envelope".toList cs) = .clientFault := by
+  exact serveSoap_no_body facts11 (by decide) soapNs cs r tns h
+
 /-- FULL statement (needs `facts11.patternDup = .reject`, which the current tree does not have):
     the chosen pattern never depends on the order in which patterns were collected.
     Proved part: it does not whenever no two patterns that match the request share an address
@@ -458,5 +517,14 @@ example : (match resolveClasses facts11 "tns".toList [docDecl] with
     | .ok mem => (match build facts11 "tns".toList ([mX, mA] ++ mem) with
         | .ok r => serve facts11 r "tns".toList (.key "Doc.rename".toList) | .error _ => .stuck)
     | .error _ => .stuck) = .ran [5] := by decide
+
+/-- a relayed message inside the Header naming `wipe`; the Body names `echo` -/
+example : soapMethod facts11 "E".toList (.node (some "E".toList) "Envelope".toList
+    [.node (some "E".toList) "Header".toList [.node (some "t".toList) "relay".toList
+        [.node (some "E".toList) "Body".toList [.node (some "t".toList) "wipe".toList []]]],
+     .node (some "E".toList) "Body".toList [.node (some "t".toList) "echo".toList []]]) =
+    some (some "t".toList, "echo".toList) := by decide
+example : fillPatterns facts11 { fid := 1, func := "get_thing".toList, inMsg := some "fetch".toList } "fetch".toList
+    [(some ["GET".toList], none)] = [(some ["GET".toList], "fetch".toList)] := by decide
 
 end SpyneModel.Props.C11
